@@ -15,7 +15,10 @@ META = {
             "on every run by replaying exhaustive short scripts and seeded random walks on ~500 template instantiations; Dune::isAligned "
             "(std::align bit trick) decides p mod 2^k = 0; AlignedBase placement new reports exactly the misaligned addresses; the whole public "
             "interface is exercised (mutants/C15/API_COVERAGE.md): copy/convert/rebind never share a pool, deallocate(p,0), null/foreign pointers, "
-            "construct/destroy/address/max_size/operator==, AllocationManager misuse detection and destructor, DEBUG_ALLOCATOR_KEEP double free.",
+            "construct/destroy/address/max_size/operator==, AllocationManager misuse detection and destructor, DEBUG_ALLOCATOR_KEEP double free.  "
+            "The literal intrusive free list (next_ words inside the slots) is proved observationally equal to the list model and run on every case; "
+            "several allocator objects (copy/convert/rebind) never share a pool and refuse each other's blocks; live DebugAllocator blocks are disjoint; "
+            "the constants of the sources are re-read into coq/Params_gen.v on every run (tools/params.d/C15.py).",
     "note": "Trusted: Coq kernel, extraction, OCaml driver, C++ harness (operator new recorder, tag writing, EFAULT probes), g++, glibc "
             "malloc/aligned_alloc/mmap return fresh (aligned) memory; sizeof(void*)=alignof(void*)=8.",
     "design_ref": "DESIGN.md section 4 C15",
